@@ -100,6 +100,24 @@ theorem pack_list_eq_concat (f : String) (fs : List String) (e : Char) (codes : 
        | _, _ => none) := by
   exact pack_list_eq_concat' f fs e codes hm he hc v1 v2 hlen
 
+/-! ### Multipliers in front of struct-style tokens (`2*<hB`, `2*(<hB,>q)`) -/
+
+/-- `N*tok` expands to the token `N` times in order — the code lists repeat as hBhB, not hhBB — so by
+    `pack_list_eq_concat` / `pack_struct_eq` the result is `struct.pack` of the format written out `N` times. -/
+theorem expandFmtAux_factor (fuel : Nat) (ds tok : List Char) (hds : ∀ d ∈ ds, d.isDigit = true) (hne : ds ≠ [])
+    (htok : tok ≠ []) (hplain : ∀ c ∈ tok, c ≠ ',' ∧ c ≠ '(' ∧ c ≠ ')') :
+    expandFmtAux (fuel + 1) (ds ++ '*' :: tok)
+      = some (List.replicate (ds.foldl (fun acc d => acc * 10 + (d.toNat - '0'.toNat)) 0) (String.ofList tok)) := by
+  exact expandFmtAux_factor' fuel ds tok hds hne htok hplain
+
+example : expandFmt "2*<hB" = some ["<hB", "<hB"] ∧ expandFmt " 3 * >bHq" = some [">bHq", ">bHq", ">bHq"] ∧
+    expandFmt "2*(<hB)" = some ["<hB", "<hB"] ∧ expandFmt "2*(<h,>B)" = some ["<h", ">B", "<h", ">B"] ∧
+    expandFmt "<b,2*<2hB" = some ["<b", "<2hB", "<2hB"] ∧ expandFmt "<b,0*(<hB)" = some ["<b"] ∧
+    expandFmt "2*(<b,2*>hB)" = some ["<b", ">hB", ">hB", "<b", ">hB", ">hB"] ∧ expandFmt "*<h" = none := by
+  decide +kernel
+example : (packM "2*<hB" [.int 1, .int 2, .int 3, .int 4]).toOption = some (bitsOfBytes [1, 0, 2, 3, 0, 4]) := by
+  decide +kernel
+
 /-! ### Python floats that are not representable in the target format
 
 `float2bitstore` hands the float to `struct.pack`, which rounds to nearest-even and raises `OverflowError` only when
